@@ -31,7 +31,7 @@ ASSUMPTIONS = [
 ]
 COMPONENTS = {"real": ["pyxel.util.set_random_seed", "pyxel stochastic models", "exposure / observation paths", "dask get_async", "numpy legacy RNG"], "stub": ["thread pool", "numpy.random module functions wrapped as yield points", "pulse_processing.convert_to_phase (minutes-long physics replaced by a constant frame)"]}
 BUDGET = {"quick": {"n": 320, "wall": 110, "determinism": 4}, "thorough": {"n": 8000, "wall": 1600, "determinism": 12}}
-REQUIRED_REACH = ["kind:calibration", "prior_with_cached_gaussian", "kind:noseed-model", "kind:model", "kind:pipeline", "kind:own-seeds", "kind:failing", "path:exposure", "path:obs-seq", "path:obs-par", "seed_lock_contended", "state_checked_after_error"]
+REQUIRED_REACH = ["pipeline_with_unseedable_model", "model:multiplication_register", "model:multiplication_register_cic", "model:sar_adc_with_noise", "model:cosmix", "model:nghxrg", "model:charge_deposition", "model:charge_deposition_in_mct", "model:conversion_with_qe_map", "kind:calibration", "prior_with_cached_gaussian", "kind:noseed-model", "kind:model", "kind:pipeline", "kind:own-seeds", "kind:failing", "path:exposure", "path:obs-seq", "path:obs-par", "seed_lock_contended", "state_checked_after_error"]
 
 GROUPS = ["scene_generation", "photon_collection", "phasing", "charge_generation", "charge_collection", "charge_transfer", "charge_measurement", "signal_transfer", "readout_electronics", "data_processing"]
 
@@ -49,6 +49,20 @@ RECIPES = {
     "output_node_noise": ("charge_measurement", ("CCD", "CMOS", "MKID", "APD"), [{"std_deviation": 1e-3}], ["signal"]),
     "output_node_noise_cmos": ("charge_measurement", ("CMOS",), [{"readout_noise": 1.0, "readout_noise_std": 2.0}], ["signal"]),
     "readout_noise_saphira": ("charge_measurement", ("APD",), [{"roic_readout_noise": 0.15, "controller_noise": 0.1}], ["signal"]),
+    "conversion_with_qe_map": ("charge_generation", ("CCD", "CMOS", "MKID", "APD"), [{"filename": "@qe", "binomial_sampling": True}], ["photon"]),
+    "charge_deposition": ("charge_generation", ("CCD", "CMOS"), [{"flux": 100.0, "step_size": 1.0, "energy_mean": 1.0, "energy_spread": 0.1, "stopping_power_curve": "@data/protons-in-silicon_stopping-power.csv"}, {"flux": 60.0, "energy_mean": 2.0, "step_size": 2.0, "stopping_power_curve": "@data/protons-in-silicon_stopping-power.csv"}], []),
+    "charge_deposition_in_mct": ("charge_generation", ("CMOS",), [{"flux": 100.0, "step_size": 1.0, "energy_mean": 1.0, "energy_spread": 0.1, "cutoff_wavelength": 2.5, "stopping_power_curve": "@data/mct-stopping-power.csv"}], []),
+    "cosmix": ("charge_generation", ("CCD",), [{"simulation_mode": "cosmic_ray", "running_mode": "stepsize", "particle_type": "proton", "particles_per_second": 100.0, "spectrum_file": "@data/proton_L2_solarMax_11mm_Shielding.txt", "progressbar": False}], []),
+    "nghxrg": ("charge_measurement", ("CMOS",), [{"noise": [{"ktc_bias_noise": {"ktc_noise": 1, "bias_offset": 2, "bias_amp": 2}}, {"white_read_noise": {"rd_noise": 1, "ref_pixel_noise_ratio": 2}}], "n_output": 1, "reference_pixel_border_width": 1}, {"noise": [{"white_read_noise": {"rd_noise": 2, "ref_pixel_noise_ratio": 1}}, {"uncorr_pink_noise": {"u_pink": 1}}], "n_output": 1, "reference_pixel_border_width": 0}], ["pixel"]),
+}
+# slow models are drawn less often
+RARE = {"cosmix": 0.25}
+# models that draw from the process-wide generator without a seed parameter of their own: inside a pipeline they are
+# reproducible only through the pipeline seed (they are never put in 'own-seeds' pipelines)
+PIPE_NOSEED = {
+    "multiplication_register": ("charge_transfer", ("CCD",), [{"total_gain": 5, "gain_elements": 4}, {"total_gain": 20, "gain_elements": 10}], ["pixel"]),
+    "multiplication_register_cic": ("charge_transfer", ("CCD",), [{"total_gain": 5, "gain_elements": 4, "pcic_rate": 0.01, "scic_rate": 0.005}], ["pixel"]),
+    "sar_adc_with_noise": ("readout_electronics", ("CCD", "CMOS", "MKID", "APD"), [{"strengths": [0.0] * 16, "noises": [0.01] * 16}], ["signal"]),
 }
 # models that draw without a seed parameter of their own (only reproducible under pipeline_seed)
 NOSEED = {
@@ -92,10 +106,28 @@ def _prepare(det, needs, rows, cols):
         det.signal.array = base.copy() * 1e-3
 
 
+def _table(name):
+    return RECIPES if name in RECIPES else PIPE_NOSEED if name in PIPE_NOSEED else NOSEED
+
+
+_SCRATCH = {"dir": None}
+
+
+def _resolve(v):
+    """'@qe' -> the scenario's scratch file, '@data/<file>' -> the data files shipped with pyxel's charge_generation models."""
+    if isinstance(v, str) and v == "@qe":
+        return os.path.join(_SCRATCH["dir"], "qe.npy")
+    if isinstance(v, str) and v.startswith("@data/"):
+        import pyxel.models.charge_generation as _cg
+
+        return os.path.join(os.path.dirname(_cg.__file__), "data", v[6:])
+    return v
+
+
 def _model_entry(name, kwargs, seed):
-    table = RECIPES if name in RECIPES else NOSEED
+    table = _table(name)
     g = table[name][0]
-    args = dict(kwargs)
+    args = copy.deepcopy(dict(kwargs))
     if seed is not None:
         args["seed"] = seed
     return g, {"name": name, "func": f"pyxel.models.{g}.{name}", "enabled": True, "arguments": args}
@@ -122,6 +154,8 @@ def generate(rng, tier):
         return scn
     if kind == "model":
         name = rng.choice(sorted(RECIPES))
+        if rng.random() > RARE.get(name, 1.0):
+            name = rng.choice(sorted(n for n in RECIPES if n not in RARE))
         g, types, kws, needs = RECIPES[name]
         scn.update({"model": name, "detector": _det_spec(rng, rng.choice(types)), "kwargs": rng.choice(kws), "seed": rng.randrange(2**31), "needs": needs, "error_path": rng.random() < 0.25})
         return scn
@@ -131,8 +165,8 @@ def generate(rng, tier):
     pipe: dict[str, list] = {}
 
     def add(name, p=1.0):
-        table = RECIPES if name in RECIPES else NOSEED
-        if dtype not in table[name][1] or rng.random() > p:
+        table = _table(name)
+        if dtype not in table[name][1] or rng.random() > p or (own and name in PIPE_NOSEED):
             return
         g, m = _model_entry(name, rng.choice(table[name][2]), rng.randrange(2**31) if own else None)
         pipe.setdefault(g, []).append(m)
@@ -147,8 +181,12 @@ def generate(rng, tier):
 
     probe("photon_collection", "src", ["photon"], rng.choice([0, 2]))
     add("shot_noise", 0.7)
-    add("simple_conversion", 0.8)
+    add("simple_conversion", 0.7)
+    add("conversion_with_qe_map", 0.25)
     add("simple_dark_current", 0.5)
+    add("charge_deposition", 0.12)
+    add("charge_deposition_in_mct", 0.08)
+    add("cosmix", 0.03)
     add("dark_current", 0.3)
     add("dark_current_saphira", 0.5)
     add("radiation_induced_dark_current", 0.2)
@@ -156,11 +194,15 @@ def generate(rng, tier):
         add("simple_dark_current", 1.0)
     pipe.setdefault("charge_collection", []).append({"name": "simple_collection", "func": "pyxel.models.charge_collection.simple_collection", "enabled": True, "arguments": {}})
     add("fixed_pattern_noise", 0.4)
+    add("multiplication_register", 0.3)
+    add("multiplication_register_cic", 0.2)
+    add("nghxrg", 0.25)
     probe("charge_measurement", "meas", ["signal"], rng.choice([0, 1]))
     add("output_node_noise", 0.5)
     add("ktc_noise", 0.4)
     add("output_node_noise_cmos", 0.4)
     add("readout_noise_saphira", 0.4)
+    add("sar_adc_with_noise", 0.3)
     scn["pipeline"] = {g: pipe[g] for g in GROUPS if g in pipe}
     scn["readout"] = {"times": [1.0, 2.5][: rng.randint(1, 2)], "start_time": 0.0, "non_destructive": rng.random() < 0.5}
     path = rng.choice(["exposure", "obs-seq", "obs-par", "obs-par"])
@@ -274,7 +316,7 @@ def _run_model(scn):
     if not scn.get("error_path"):
         _prepare(det, scn["needs"], rows, cols)
     exc = None
-    kw = dict(scn["kwargs"])
+    kw = {k: _resolve(v) for k, v in copy.deepcopy(scn["kwargs"]).items()}
     if scn["seed"] is not None:
         kw["seed"] = scn["seed"]
     try:
@@ -298,6 +340,10 @@ def _run_world(scn, forced=None):
 
     probes.reset()
     path = scn["path"]
+    scn = copy.deepcopy(scn)
+    for _, m in world.all_models(scn):
+        if m["func"].startswith("pyxel."):
+            m["arguments"] = {k: _resolve(v) for k, v in m["arguments"].items()}
     mode, det, pipe = world.build_python(scn)
     exc, tree, sim, rs = None, None, None, seams.RngSeam()
     try:
@@ -327,6 +373,20 @@ def execute(scn, forced=None):
     digests, excs, infos, restored = [], [], [], []
     feat = kind
     tb = ""
+    scratch = world.Scratch()
+    _SCRATCH["dir"] = scratch.path
+    if "detector" in scn:
+        r_, c_ = scn["detector"]["row"], scn["detector"]["col"]
+        np.save(os.path.join(scratch.path, "qe.npy"), 0.2 + 0.6 * (np.arange(r_ * c_, dtype=float).reshape(r_, c_) % 5) / 5.0)
+    try:
+        _execute_reps(scn, forced, kind, digests, excs, infos, restored, viol)
+    finally:
+        scratch.__exit__(None, None, None)
+        _SCRATCH["dir"] = None
+    return _judge(scn, kind, digests, excs, infos, restored, viol, stats)
+
+
+def _execute_reps(scn, forced, kind, digests, excs, infos, restored, viol):
     for rep in range(2):
         s0 = _set_prior(scn["prior"][rep])
         try:
@@ -355,6 +415,10 @@ def execute(scn, forced=None):
         infos.append(info)
         if rep == 0:
             _between(scn)
+
+
+def _judge(scn, kind, digests, excs, infos, restored, viol, stats):
+    feat = kind
     if kind in ("model", "noseed-model"):
         feat = f"model:{scn['model']}" + ("+error-path" if scn.get("error_path") else "")
         stats["model:" + scn["model"]] = 1
@@ -377,6 +441,10 @@ def execute(scn, forced=None):
             feat = f"{kind}+{scn['path']}"
             if "pulse_processing" in names and not seeded:
                 feat += "+pulse_processing"
+            unseeded = [n for n in names if n in PIPE_NOSEED]
+            if unseeded:
+                stats["pipeline_with_unseedable_model"] = 1
+                feat += "+" + "+".join(unseeded)
         for n in names:
             stats["model:" + n] = 1
     stats.update(engine_stats)
@@ -420,7 +488,7 @@ def execute(scn, forced=None):
 
 def coverage_extra():
     found = discover()
-    return {"covered_models": sorted(n for n in found if n in RECIPES), "uncovered_models": sorted(n for n in found if n not in RECIPES), "models_drawing_without_seed_parameter": sorted(NOSEED)}
+    return {"covered_models": sorted(n for n in found if n in RECIPES), "uncovered_models": sorted(n for n in found if n not in RECIPES), "models_drawing_without_seed_parameter": sorted([*NOSEED, *PIPE_NOSEED])}
 
 
 _ = (os, ref)
